@@ -5,3 +5,17 @@ From XV Require Import lib.Bytes.
 Definition ibb_ns : bytes := hex "687474703a2f2f6a61626265722e6f72672f70726f746f636f6c2f696262".
 Definition ibb_block_size : N := 2048%N.
 Definition ibb_max_buffer : N := 262144%N.
+
+(* handlePayload: the wake-up of a pending Read is an unconditional top-level statement
+   after the append to the read buffer; returns between the two, by kind *)
+Definition ibb_payload_notify_unconditional : bool := true.
+Definition ibb_payload_success_returns_before_notify : nat := 0.
+Definition ibb_payload_error_returns_before_notify : nat := 2.
+
+(* Handler.rmStream deletes the entry only under `if h.streams[sid] == conn` *)
+Definition ibb_rmstream_guarded : bool := true.
+
+(* Close / closeNoNotify call closeRead only after `if c.markClosed() { return }` *)
+Definition ibb_close_closeread_after_markclosed : bool := true.
+Definition ibb_closenonotify_closeread_after_markclosed : bool := true.
+Definition ibb_closeread_call_sites : nat := 2.
